@@ -6,6 +6,7 @@
   the correspondence, not proved.
 -/
 import G9Proofs.Props.C09
+import G9.ClntIO
 namespace G9.C10
 open G9 G9.Clnt
 
@@ -213,5 +214,172 @@ theorem no_stuck_state (s : CS) (i t : Nat) (hl : tagOf s i = some t) :
 example : ((CS.init 4).run [.alloc 1, .alloc 2, .alloc 3, .enqueue 1, .enqueue 2, .enqueue 3, .fail,
     .fanout, .fanout, .fanout, .ret 1, .ret 2, .ret 3]).map (fun s => (s.pend, s.live.length, s.woken.length, s.free.length + s.cache.length))
     = some ([], 0, 0, 4) := by decide
+
+/-! ### hand-off to the writer goroutine and the shutdown handshake (G9.ClntIO) -/
+
+section io
+open G9.ClntIO
+
+structure HSInv (s : HS) : Prop where
+  gone : s.w = .gone ↔ s.r = .closed
+  nodup : s.handing.Nodup
+
+theorem ioinv_init : HSInv HS.init := ⟨by simp [HS.init], by simp [HS.init]⟩
+
+theorem ioinv_step (s s' : HS) (e : ClntIO.Ev) (h : HSInv s) (hs : s.step e = some s') : HSInv s' := by
+  cases e with
+  | enq i =>
+    simp only [HS.step] at hs
+    split at hs
+    · simp at hs
+    · rename_i hn
+      have := (Option.some.inj hs).symm; subst this
+      refine ⟨h.gone, ?_⟩
+      show (s.handing ++ [i]).Nodup
+      rw [List.nodup_append]
+      refine ⟨h.nodup, by simp, ?_⟩
+      intro a ha b hb
+      have : b = i := by simpa using hb
+      subst this
+      intro hab; subst hab
+      exact hn (Or.inl ha)
+  | handoff i =>
+    simp only [HS.step] at hs
+    split at hs
+    · rename_i hc
+      have := (Option.some.inj hs).symm; subst this
+      refine ⟨?_, h.nodup.erase i⟩
+      show (W.writing i = W.gone) ↔ s.r = R.closed
+      have hne : s.r ≠ .closed := by
+        intro hr; have := h.gone.2 hr; rw [hc.2] at this; cases this
+      constructor
+      · intro h1; cases h1
+      · intro h1; exact absurd h1 hne
+    · simp at hs
+  | wrote =>
+    simp only [HS.step] at hs
+    split at hs
+    · rename_i j hw
+      have := (Option.some.inj hs).symm; subst this
+      refine ⟨?_, h.nodup⟩
+      show (W.idle = W.gone) ↔ s.r = R.closed
+      have hne : s.r ≠ .closed := by
+        intro hr; have := h.gone.2 hr; rw [hw] at this; cases this
+      constructor
+      · intro h1; cases h1
+      · intro h1; exact absurd h1 hne
+    · simp at hs
+  | wfail =>
+    simp only [HS.step] at hs
+    split at hs
+    · rename_i j hw
+      have := (Option.some.inj hs).symm; subst this
+      refine ⟨?_, h.nodup⟩
+      show (W.idle = W.gone) ↔ s.r = R.closed
+      have hne : s.r ≠ .closed := by
+        intro hr; have := h.gone.2 hr; rw [hw] at this; cases this
+      constructor
+      · intro h1; cases h1
+      · intro h1; exact absurd h1 hne
+    · simp at hs
+  | rfail =>
+    simp only [HS.step] at hs
+    split at hs
+    · rename_i hr
+      have := (Option.some.inj hs).symm; subst this
+      refine ⟨?_, h.nodup⟩
+      show s.w = W.gone ↔ R.stopping = R.closed
+      constructor
+      · intro h1; have := h.gone.1 h1; rw [hr] at this; cases this
+      · intro h1; cases h1
+    · simp at hs
+  | stop =>
+    simp only [HS.step] at hs
+    split at hs
+    · have := (Option.some.inj hs).symm; subst this
+      exact ⟨by simp, h.nodup⟩
+    · simp at hs
+  | giveup i =>
+    simp only [HS.step] at hs
+    split at hs
+    · have := (Option.some.inj hs).symm; subst this
+      exact ⟨h.gone, h.nodup.erase i⟩
+    · simp at hs
+
+theorem ioinv_run (es : List ClntIO.Ev) (s s' : HS) (h : HSInv s) (hr : s.run es = some s') : HSInv s' := by
+  induction es generalizing s with
+  | nil => simp [HS.run] at hr; subst hr; exact h
+  | cons e es ih =>
+    simp only [HS.run] at hr
+    cases hst : s.step e with
+    | none => rw [hst] at hr; simp at hr
+    | some s1 => rw [hst] at hr; exact ih s1 (ioinv_step s s1 e h hst) (by simpa using hr)
+
+/-- The writer goroutine is there for as long as the receiver may want to stop it: in every
+    reachable state it has returned exactly when the handshake `clnt.done <- true` is over. -/
+theorem writer_outlives_receiver (es : List ClntIO.Ev) (s : HS) (h : HS.init.run es = some s) :
+    s.w = .gone ↔ s.r = .closed :=
+  (ioinv_run es _ s ioinv_init h).gone
+
+/-- The receiver is never stuck at `clnt.done <- true`: whatever the writer is doing — waiting at
+    its select, or inside a Write (which returns, with an error once the socket is gone) — at most
+    two steps later the handshake is over and `closed` is closed, which is what lets the error
+    fan-out (`fanout_wakes_all`) begin. -/
+theorem shutdown_completes (es : List ClntIO.Ev) (s : HS) (h : HS.init.run es = some s) (hr : s.r = .stopping) :
+    ∃ es' s', es'.length ≤ 2 ∧ s.run es' = some s' ∧ s'.r = .closed := by
+  have inv := ioinv_run es _ s ioinv_init h
+  cases hw : s.w with
+  | idle => exact ⟨[.stop], { s with r := .closed, w := .gone }, by simp, by simp [HS.run, HS.step, hr, hw], rfl⟩
+  | writing j =>
+    refine ⟨[.wfail, .stop], { s with r := .closed, w := .gone }, by simp, ?_, rfl⟩
+    simp [HS.run, HS.step, hr, hw]
+  | gone => have := inv.gone.1 hw; rw [hr] at this; cases this
+
+/-- A caller that has queued its request and waits to hand it to the writer never waits for
+    ever: either the writer takes it (at once, or after the Write it is in) or — the connection
+    having failed — `closed` lets it go; in at most two steps it has left the select. -/
+theorem caller_leaves_the_select (es : List ClntIO.Ev) (s : HS) (h : HS.init.run es = some s) (i : Nat)
+    (hi : i ∈ s.handing) (hnr : s.r ≠ .stopping) :
+    ∃ es' s', es'.length ≤ 2 ∧ s.run es' = some s' ∧ i ∉ s'.handing := by
+  have inv := ioinv_run es _ s ioinv_init h
+  have hgone : i ∉ s.handing.erase i := fun hm => (List.Nodup.mem_erase_iff inv.nodup).1 hm |>.1 rfl
+  cases hrr : s.r with
+  | stopping => exact absurd hrr hnr
+  | closed =>
+    refine ⟨[.giveup i], { s with handing := s.handing.erase i, gaveup := s.gaveup ++ [i] }, by simp, ?_, hgone⟩
+    simp [HS.run, HS.step, hi, hrr]
+  | running =>
+    cases hw : s.w with
+    | idle =>
+      refine ⟨[.handoff i], { s with handing := s.handing.erase i, taken := s.taken ++ [i], w := .writing i }, by simp, ?_, hgone⟩
+      simp [HS.run, HS.step, hi, hw]
+    | writing j =>
+      refine ⟨[.wrote, .handoff i], { s with handing := s.handing.erase i, taken := s.taken ++ [i], w := .writing i }, by simp, ?_, hgone⟩
+      simp [HS.run, HS.step, hi, hw]
+    | gone => have := inv.gone.1 hw; rw [hrr] at this; cases this
+
+/-- Witness that the writer's return to its select after a failed Write carries all this: with a
+    writer that returns instead (seeded change C10-6), after "request taken, connection fails,
+    Write fails" the receiver sits at `clnt.done <- true` for ever — no event of the system is
+    enabled but new callers arriving, who then wait as well. -/
+theorem failed_write_exit_deadlocks :
+    let s : HS := { handing := [], taken := [1], gaveup := [], w := .gone, r := .stopping }
+    ([ClntIO.Ev.enq 1, .handoff 1, .rfail, .wfail].foldl (fun o e => o.bind (fun s => HS.stepExit s e)) (some HS.init) = some s) ∧
+    ∀ e, (∀ i, e ≠ .enq i) → HS.stepExit s e = none := by
+  refine ⟨by decide, ?_⟩
+  intro e he
+  cases e with
+  | enq i => exact absurd rfl (he i)
+  | handoff i => simp [HS.stepExit, HS.step]
+  | wrote => simp [HS.stepExit, HS.step]
+  | wfail => simp [HS.stepExit]
+  | rfail => simp [HS.stepExit, HS.step]
+  | stop => simp [HS.stepExit, HS.step]
+  | giveup i => simp [HS.stepExit, HS.step]
+
+example : (HS.init.run [.enq 1, .enq 2, .handoff 1, .rfail, .wfail, .stop, .giveup 2]).map (fun s => (s.taken, s.gaveup, s.handing)) =
+    some ([1], [2], []) := by decide
+
+end io
 
 end G9.C10
